@@ -93,17 +93,52 @@ def atom_exprs(test: ast.expr, polarity: bool = True, env=None, depth: int = 4) 
         return atom_exprs(test.value, polarity, env, depth)
     if isinstance(test, ast.Compare) and len(test.ops) == 1:
         op = test.ops[0]
+        left, right = test.left, test.comparators[0]
+        # `"x" == t` is `t == "x"`
+        if isinstance(op, (ast.Eq, ast.NotEq)) and isinstance(left, ast.Constant) and not isinstance(right, ast.Constant):
+            left, right = right, left
+            test = ast.copy_location(ast.Compare(left=left, ops=[op], comparators=[right]), test)
         for neg, pos in _FLIP.items():
             if isinstance(op, neg):
-                t2 = ast.copy_location(ast.Compare(left=test.left, ops=[pos()], comparators=test.comparators), test)
+                t2 = ast.copy_location(ast.Compare(left=left, ops=[pos()], comparators=[right]), test)
                 return [(t2, not polarity)]
     if isinstance(test, ast.Constant):
         return []  # `while True:` scaffolding of an inlined helper / constant conditions say nothing
     return [(test, polarity)]
 
 
-def atoms(test: ast.expr, polarity: bool = True, env=None, depth: int = 4) -> List[Tuple[str, bool]]:
-    return [(unparse(e), p) for e, p in atom_exprs(test, polarity, env, depth)]
+def atoms(test: ast.expr, polarity: bool = True, env=None, depth: int = 4, expand: bool = False) -> List[Tuple[str, bool]]:
+    return [(unparse(expand_aliases(e, env) if expand and env is not None else e), p)
+            for e, p in atom_exprs(test, polarity, env, depth)]
+
+
+class _AliasExpander(ast.NodeTransformer):
+    def __init__(self, env, depth):
+        self.env, self.depth = env, depth
+
+    def visit_Name(self, n):
+        if not isinstance(n.ctx, ast.Load) or self.depth <= 0:
+            return n
+        ds = self.env.get(n.id, [])
+        if len(ds) == 1 and ds[0] is not None and _is_access_path(ds[0]) and not any(
+                isinstance(x, ast.Name) and x.id == n.id for x in ast.walk(ds[0])):
+            return _AliasExpander(self.env, self.depth - 1).visit(copy.deepcopy(ds[0]))
+        return n
+
+
+def _is_access_path(e) -> bool:
+    """`a`, `a.b.c`, `a.b[k]` with constant/Name subscripts: reading it again gives the same object (pure alias)"""
+    while isinstance(e, (ast.Attribute, ast.Subscript)):
+        if isinstance(e, ast.Subscript) and not isinstance(e.slice, (ast.Constant, ast.Name, ast.Attribute)):
+            return False
+        e = e.value
+    return isinstance(e, ast.Name)
+
+
+def expand_aliases(expr, env, depth: int = 3):
+    """copy of `expr` in which a local that has exactly one definition, and that definition is a plain access path
+    (`cascade = prop.cascade`, `orphans = self.cascade.delete_orphan`), is replaced by the path"""
+    return _AliasExpander(env, depth).visit(copy.deepcopy(expr))
 
 
 def _stmt_of(pm, node):
@@ -140,8 +175,9 @@ def guard_atom_exprs_at(g, pm, node, env=None) -> List[Tuple[ast.expr, bool]]:
     return out
 
 
-def guard_atoms_at(g, pm, node, env=None) -> List[Tuple[str, bool]]:
-    return [(unparse(e), p) for e, p in guard_atom_exprs_at(g, pm, node, env)]
+def guard_atoms_at(g, pm, node, env=None, expand: bool = False) -> List[Tuple[str, bool]]:
+    return [(unparse(expand_aliases(e, env) if expand and env is not None else e), p)
+            for e, p in guard_atom_exprs_at(g, pm, node, env)]
 
 
 def prune_edges(g, implied_false: Callable[[List[Tuple[str, bool]]], bool], env=None):
